@@ -173,6 +173,13 @@ func (e *Exec) jsonUnmarshalInto(data string, target Iface) Value {
 		}
 		return Iface{}
 	}
+	if !json.Valid([]byte(data)) {
+		// truncated / empty / corrupted input (a cut blob token is not valid JSON either): every decoder reports it
+		if len(data) == 0 {
+			return e.errNew("unexpected end of JSON input")
+		}
+		return e.errNew("json: syntax error in input")
+	}
 	// concrete JSON text into (pointer chains to) basic types
 	base := tt
 	depth := 0
